@@ -164,7 +164,10 @@ impl FileMetadata {
                 smallest = file.smallest_key();
             }
 
-            if file.largest_key() < largest {
+            // Only the user key of the upper bound is significant to callers. Entries for the same
+            // user key are ordered by decreasing sequence number so comparing full keys here would
+            // not yield the bound with the greatest user key.
+            if file.largest_key().get_user_key() > largest.get_user_key() {
                 largest = file.largest_key()
             }
         }
@@ -201,7 +204,7 @@ impl FileMetadata {
                 smallest = files_key_range.start;
             }
 
-            if files_key_range.end < largest {
+            if files_key_range.end.get_user_key() > largest.get_user_key() {
                 largest = files_key_range.end
             }
         }
